@@ -8,6 +8,45 @@ from .rules import api, cog, crsguard, generic2, valueobj
 ALL = [f"C{n:02d}" for n in range(1, 21)]
 
 
+def _isolate_rules() -> None:
+    """Every rule entry point (`def rule(prog, ...) -> List[Instance]`) is isolated: a vanished anchor function (AnalysisError)
+    makes that rule undecided on this tree - one UNDET instance - instead of aborting the property's other rules."""
+    import functools
+    import importlib
+    import inspect
+    import pkgutil
+
+    from . import rules as _rules
+    from .report import UNDET, Instance
+
+    for m in pkgutil.iter_modules(_rules.__path__):
+        mod = importlib.import_module(f"{_rules.__name__}.{m.name}")
+        for name, fn in list(vars(mod).items()):
+            if not inspect.isfunction(fn) or fn.__module__ != mod.__name__ or getattr(fn, "_isolated", False):
+                continue
+            try:
+                sig = inspect.signature(fn)
+            except (TypeError, ValueError):
+                continue
+            params = list(sig.parameters)
+            ra = fn.__annotations__.get("return")
+            if not params or params[0] != "prog" or "List[Instance]" not in str(ra):
+                continue
+
+            def wrapper(*a, __fn=fn, __name=f"{m.name}.{name}", **k):
+                try:
+                    return __fn(*a, **k)
+                except AnalysisError as e:
+                    return [Instance("R-ANCHOR", f"{__name}#anchor", UNDET, f"{e}", "")]
+
+            functools.update_wrapper(wrapper, fn)
+            wrapper._isolated = True  # type: ignore[attr-defined]
+            setattr(mod, name, wrapper)
+
+
+_isolate_rules()
+
+
 def C01(prog: Program, run: Run, tier: str) -> None:
     mods = None if tier == "thorough" else {"geom", "geobox", "gcp", "gridspec", "overlap", "_xr_interop", "converters", "crs"}
     run.add(
@@ -407,19 +446,25 @@ ROUND4 = {'C01': ['epsg_str_canonical', 'explicit_crs_checked', 'wrapper_keyword
 ROUND5 = {'C02': ['resolution_siblings'], 'C03': ['point_transform_clamps'], 'C05': ['part_budget_matches_reservation'], 'C06': ['part_budget_matches_reservation'], 'C08': ['zoom_to_resolution_exact'], 'C11': ['utm_lonlat_needs_no_crs'], 'C13': ['dst_nodata_before_warp'], 'C16': ['auto_resolution_fallback'], 'C17': ['int_index_is_unit_slice'], 'C18': ['parts_dir_full_name'], 'C20': ['snap_tolerance_both_edges', 'resolution_siblings']}
 
 
+def _undecided(name, e):
+    from .report import UNDET, Instance
+
+    return Instance("R-ANCHOR", f"{name}#anchor", UNDET, str(e), "")
+
+
 def _with_generic(pid, fn):
     def wrapped(prog: Program, run: Run, tier: str) -> None:
         fn(prog, run, tier)
         for _nm in ROUND4.get(pid, []):
             try:
                 run.add(getattr(round4, _nm)(prog), "round-4 clause: " + (getattr(round4, _nm).__doc__ or "").split(".")[0].strip() + " (structural part of a repaired defect; see rules/round4.py)")
-            except AnalysisError as e:  # a vanished anchor fails this clause (exit 2), the remaining clauses still run
-                run.error(f"{_nm}: {e}")
+            except AnalysisError as e:  # a vanished anchor leaves this clause undecided, the remaining clauses still run
+                run.add([_undecided(_nm, e)])
         for _nm in ROUND5.get(pid, []):
             try:
                 run.add(getattr(round5, _nm)(prog), "round-5 clause: " + (getattr(round5, _nm).__doc__ or "").split(". ", 1)[-1].split(".")[0].strip() + " (structural part of a property a seeded change broke; see rules/round5.py)")
             except AnalysisError as e:
-                run.error(f"{_nm}: {e}")
+                run.add([_undecided(_nm, e)])
         run.add(findings.declared(prog, pid), "R-DECLARED findings recorded with a failing input but without a structural clause: printed for the record, not decided")
         mods = {m for m in ANCHORED.get(pid, set()) if m in prog.modules}
         run.add(generic.rule_dup(prog, mods) + generic.rule_truthy(prog, mods) + generic.rule_abseps(prog, mods) + generic.rule_localmemo(prog, mods) + generic.rule_remainder_owner(prog, mods) + generic.rule_fallback(prog, mods) + generic.rule_isclose(prog, mods) + generic.rule_signed_magnitude(prog, mods) + generic.rule_zerodiv(prog, mods) + generic.rule_densify(prog, mods) + generic.rule_termination(prog, mods) + generic.rule_intidx(prog, mods) + generic.rule_assert_vs_annotation(prog, mods) + generic.rule_precision(prog, mods) + generic.rule_sharedmut(prog, mods) + generic.rule_itertwice(prog, mods)
